@@ -20,6 +20,9 @@ import (
 // edge kinds; presence does not prove correctness.
 type Flow struct {
 	w       *World
+	// NoParams: do not bind arguments to the parameters of repository callees (the flow then follows what a function
+	// makes itself or receives as a RESULT, through variables, containers and fields - not what its callers hand in).
+	NoParams bool
 	Values  map[ssa.Value]bool
 	Fields  map[string]bool
 	Globals map[*ssa.Global]bool
@@ -248,6 +251,10 @@ func (f *Flow) throughCall(c ssa.CallInstruction, v ssa.Value) {
 	bound := false
 	for _, t := range targets {
 		if !isRepoFunc(t) {
+			continue
+		}
+		if f.NoParams {
+			bound = true
 			continue
 		}
 		// map argument positions to parameters
